@@ -4,6 +4,8 @@ IMPORTS = "From Ergo Require Import Common.Base Event.Model Event.Cases."
 
 RIMPORTS = "From Ergo Require Import Common.Base Event.Model Event.Cases Event.Remote Event.RemoteCases."
 
+BIMPORTS = "From Ergo Require Import Common.Base Event.Model Event.Cases Event.Bounded Event.BoundedCases."
+
 TAGS = ["stale-record-notify", "remote-subscribe-race", "remote-unregister-overtakes"]
 
 SEQ_CORR = ["corr_lts", "corr_seq"]
@@ -12,6 +14,8 @@ HK_CORR = ["corr_hooked"]
 HK_SPEC = ["spec_hooked", "spec_hooked_notify"]
 R_CORR = ["corr_remote"]
 R_SPEC = ["spec_r_once_in_order", "spec_r_token", "spec_r_lastN", "spec_r_unregister_once", "spec_r_start_stop"]
+B_CORR = ["corr_bounded"]
+B_SPEC = ["spec_b_healthy", "spec_b_stuck", "spec_b_state", "spec_b_notify"]
 
 
 def _known_tags(c):
@@ -66,6 +70,17 @@ def _remote(c, name, n, seed=None, corr=R_CORR):
         c.cases(name, out, RIMPORTS, "rcase", corr=list(corr), spec=R_SPEC, premise=["premise_remote"])
 
 
+def _bounded(c, name, n, seed=None, corr=B_CORR):
+    """one real node, sequential histories with 1-2 stuck subscribers (bounded mailbox, blocked handler) among
+    2-5 healthy ones: the healthy ones must not notice"""
+    args = ["bounded", "-n", str(n)]
+    if c.replay and seed is None:
+        args = ["bounded", "-replay", c.replay]
+    out = c.harness("event", args, env=({"VERIF_SEED": str(seed)} if seed is not None else None))
+    if out:
+        c.cases(name, out, BIMPORTS, "bcase", corr=list(corr), spec=B_SPEC, premise=["premise_bounded"])
+
+
 def _rstress(c, name, rounds, seed=None):
     """two real nodes, un-quiesced: per-publisher order / at-most-once of the live stream must hold; the lost and
     repeated publications of the known findings are reported only when known_findings.json lists their tags"""
@@ -90,12 +105,13 @@ def run(c):
     c.proofs("theories/Properties/C18.v", clean=(c.tier == "thorough"))
     # the checker definitions are not in the cone of the property file: (re)build them after the cone
     import vlib
-    ok, log = vlib.coq_make(["theories/Event/Cases.vo", "theories/Event/RemoteCases.vo"])
+    ok, log = vlib.coq_make(["theories/Event/Cases.vo", "theories/Event/RemoteCases.vo", "theories/Event/BoundedCases.vo"])
     if not ok:
-        c.broken.append({"kind": "proof", "what": "Coq build of theories/Event/Cases.v / RemoteCases.v failed", "detail": log[-2500:]})
+        c.broken.append({"kind": "proof", "what": "Coq build of theories/Event/Cases.v / RemoteCases.v / BoundedCases.v failed", "detail": log[-2500:]})
     quick = c.tier == "quick"
     nseq, nhk, nst = (240, 160, 100) if quick else (6000, 4000, 3000)
     nrem, nrs = (60, 25) if quick else (2500, 400)
+    nbd = 80 if quick else 3000
     kind = _replay_kind(c) if c.replay else ""
     if c.replay:
         if kind == "hooked":
@@ -106,12 +122,15 @@ def run(c):
             _remote(c, "remote", 1)
         elif kind == "rstress":
             _rstress(c, "rstress", nrs * 4)
+        elif kind == "bounded":
+            _bounded(c, "bounded", 1)
         else:
             _seq(c, "seq", 1)
     else:
         _seq(c, "seq", nseq)
         _hooked(c, "hooked", nhk)
         _stress(c, "stress", nst)
+        _bounded(c, "bounded", nbd)
         _remote(c, "remote", nrem)
         _rstress(c, "rstress", nrs)
     if c.broken and not c.violations and not c.replay:
@@ -120,6 +139,7 @@ def run(c):
         _seq(c, "seq-search", nseq * (10 if quick else 3), seed=c.seed + 7919, corr=())
         _hooked(c, "hooked-search", nhk * (6 if quick else 2), seed=c.seed + 7919, corr=())
         _stress(c, "stress-search", nst * 10, seed=c.seed + 7919)
+        _bounded(c, "bounded-search", nbd * (8 if quick else 2), seed=c.seed + 7919, corr=())
         _remote(c, "remote-search", nrem * (8 if quick else 2), seed=c.seed + 7919, corr=())
         c.broken = keep + [b for b in c.broken if b not in keep]
     c.cov["rule"] = ("distinct = different Coq case term (history or programs+schedule, and observations); non-trivial = "
@@ -130,7 +150,8 @@ def run(c):
         "the target manager is abstracted as an atomic set of (consumer, kind) per event (gen/default_target_manager.go holds one RWMutex; Rel engine)",
         "MakeRef returns fresh references (C06); token 0 models the empty gen.Ref",
         "one event name is modelled; the harness projects every history on each of its event names",
-        "unbounded mailboxes (with a mailbox limit event messages are dropped silently: ErrProcessMailboxFull is ignored by RouteSendEvent)",
+        "bounded mailboxes: a subscriber with ProcessOptions.MailboxSize c whose handler is blocked keeps the first c+1 event messages (one held by the handler, c queued), the rest is refused (ErrProcessMailboxFull, ignored by RouteSendEvent) - proved for every set of such subscribers and every history (Event/Bounded*.v), tied for QUIESCENT sequential histories with 1-2 stuck subscribers (MailboxSize 1..2) that only subscribe, blocked from their first event message to the end of the history (the harness waits after every call until a stuck subscriber either sits in its handler or sleeps with an empty queue); a subscriber that consumes slowly (queue length going up and down) and bounded System/Urgent queues are not modelled; the other families use unbounded mailboxes",
+        "a subscriber that is out of the process table while its relations still exist (unregisterProcess between processes.Delete and CleanupConsumer) is skipped and the loop goes on: covered by the theorems (any schedule: C18_exactly_once_in_order over log entries with e_ok = false; any state: C18_bounded_call_any_state, C18_call_exactly_once_any_state); the harness does not drive a publication into that window (no yield point there), it terminates subscribers between calls",
         "subscribers on another node: frames of one order byte (one publisher: from.ID%255+1, KeepNetworkOrder on) are handled by the receiving node in send order (C13 / Proto engine); terminate frames and answers use order byte 0 and are not ordered with them",
         "subscribers on another node, completeness (nothing lost, nothing twice, one notification): proved and tied for QUIESCENT histories (every call and what it causes on the other node completes before the next call; quiescence is observed by the harness through frame counters and receive-queue marks); without quiescence it is refuted (remote_subscribe_gap_refuted, remote_subscribe_dup_refuted, remote_unregister_overtakes_refuted) - known findings remote-subscribe-race, remote-unregister-overtakes",
         "two nodes, one connection, the event on the dialing node; node failure / connection loss with event subscribers is C14 (the consumer counter is not corrected by RouteNodeDown: not covered)",
